@@ -659,32 +659,39 @@ fn process_request_obj(request: &Request, dbs: &Arc<Databases>, client: &mut Cli
                     &PermissionKind::Read,
                 );
             } else {
-                apply_to_database(&dbs, &client, &|db| {
-                    if dbs.is_primary() {
-                        db.resolve_conflit(
-                            Change {
-                                key: key.clone(),
-                                value: value.clone(),
-                                version,
-                                opp_id,
-                                resolve_conflict: true,
-                            },
-                            &dbs,
-                        )
-                    } else {
-                        send_message_to_primary(
-                            get_resolve_message(
-                                opp_id,
-                                db_name.to_string(),
-                                key.clone(),
-                                value.clone(),
-                                version,
-                            ),
-                            dbs,
-                        );
-                        Response::Ok {}
-                    }
-                });
+                // A resolve writes the key: like set it needs write access to it (and admin for $$ keys)
+                apply_if_safe_access(
+                    &dbs,
+                    &client,
+                    &key,
+                    &|db| {
+                        if dbs.is_primary() {
+                            db.resolve_conflit(
+                                Change {
+                                    key: key.clone(),
+                                    value: value.clone(),
+                                    version,
+                                    opp_id,
+                                    resolve_conflict: true,
+                                },
+                                &dbs,
+                            )
+                        } else {
+                            send_message_to_primary(
+                                get_resolve_message(
+                                    opp_id,
+                                    db_name.to_string(),
+                                    key.clone(),
+                                    value.clone(),
+                                    version,
+                                ),
+                                dbs,
+                            );
+                            Response::Ok {}
+                        }
+                    },
+                    PermissionKind::Write,
+                );
             };
             return Response::Ok {};
         }
